@@ -81,6 +81,10 @@ def impl(case):
             res["inv"] = [[_c(v) for v in np.asarray(x, dtype=float)] for x in inv]
             raw = _tup(w.invert(*world, with_bounding_box=False))
             res["raw"] = [[_c(v) for v in np.asarray(x, dtype=float)] for x in raw]
+            if case["wcs"] == "sky" and case["path"] == "analytic":
+                # the iterative solver called directly on a WCS that also has an analytic inverse: it masks like any iterative inversion
+                r_ = _tup(w.numerical_inverse(*world, **kw))
+                res["numinv_direct"] = [[_c(v) for v in np.asarray(x, dtype=float)] for x in r_]
             if case["path"] == "iterative":
                 # the other modes of the solver (the fallback that recovers divergent points runs only in some of them): the masking
                 # claim is the same in each
@@ -188,7 +192,10 @@ def oracle(case, res):
             want = inside
             if res["in_image"][k] != want:
                 out.append(("in_image", "in_image(%s path) is %s for the image of pixel %s, box %s" % (case["path"], res["in_image"][k], p, box)))
-    for nm_, inv_m in (res.get("inv_modes") or {}).items():
+    modes_ = dict(res.get("inv_modes") or {})
+    if "numinv_direct" in res:
+        modes_["numerical_inverse called directly"] = res["numinv_direct"]
+    for nm_, inv_m in modes_.items():
         for k in range(npts):
             if k in case.get("nan_at", []) or k in [i for i, _s in case.get("inf_at", [])] or not masking:
                 continue
